@@ -9,22 +9,22 @@ current and target version.  `DocLike` is the type guarantee of
 `yaml.Unmarshal(body, &yobj{})`: no document (parse error), a nil map (null
 document) or a map.
 
-Not proved here (checked by the spec monitor on the implementation's outputs
-and by the model/implementation correspondence only): independence of the
-result from partial runs (`pathWhy`) for all documents, and preservation of
-unconcerned settings below the top level (`frameWhy`).  The one-run/partial-run
-clause is FALSE for documents holding an integral float, see
-`C13_counterexample_path_float`.
+Independence from partial runs is proved under the explicit hypothesis that
+re-encoding leaves the intermediate document unchanged
+(`C13_path_independent_partial`); without it the statement is FALSE for documents
+holding an integral float (`C13_counterexample_path_float`, a known finding), and
+for the Go-typed values that steps 12, 20, 28 and 29 leave in the map it is only
+checked by the spec monitor on the implementation's outputs and by the
+model/implementation correspondence (`pathWhy`).  Preservation of unconcerned
+settings is proved for top-level keys (`C13_frame_top`); below the top level it
+is monitored only (`frameWhy`).  The last block holds the obligations over the
+facts regenerated from the Go source on every run.
 -/
-import AGH.Lemmas.MigrateRun
+import AGH.Lemmas.MigrateSpec
 import AGH.Model.MigrateSig
 import AGH.Gen.C13Facts
 namespace AGH.C13
 open AGH
-
-/-- A null document is treated like an empty one. -/
-theorem migrateMem_null (o : Oracles) (target : Nat) :
-    migrateMem o (some .null) target = migrateMem o (some (.obj [])) target := rfl
 
 /-- `Migrate` before the encoding does not panic. -/
 theorem C13_total_mem (o : Oracles) (parsed : Option YVal) (target : Nat) (h : DocLike parsed) :
@@ -64,56 +64,10 @@ theorem C13_total (o : Oracles) (parsed : Option YVal) (target : Nat) (h : DocLi
   | same => simp
   | oracle => simp
 
-/-- The in-memory document `Migrate` encodes: a map, stamped, top-level frame. -/
-theorem migrateMem_up (o : Oracles) (es : List (Key × YVal)) (target : Nat) (d : YVal)
-    (h : migrateMem o (some (.obj es)) target = .up d) :
-    ∃ cur, versionOf (.obj es) = some cur ∧ cur < target ∧ target ≤ 29 ∧ IsObj d ∧
-      getK d kSchemaVersion = some (.int target) ∧
-      ∀ k, k ∉ topKeys (touchedRange (target - cur) cur) → getK d k = lookup k es := by
-  rcases migrateMem_obj o es target with ⟨⟨k, hk⟩, _⟩ | ⟨hs, _, _⟩ | ⟨cur, hv, hlt, h29, hu⟩
-  · rw [hk] at h; simp at h
-  · rw [hs] at h; simp at h
-  · rw [hu] at h
-    have hup := upgrade_ok o (target - cur) cur (by omega) es
-    cases hr : upgrade o (target - cur) cur (.obj es) with
-    | error fs => obtain ⟨f, s⟩ := fs; rw [hr] at h; cases f <;> simp [upgradeOutcome] at h
-    | ok d' =>
-      rw [hr] at h hup
-      simp [upgradeOutcome] at h; subst h
-      obtain ⟨ho, hs, hf⟩ := hup
-      refine ⟨cur, hv, hlt, h29, ho, ?_, hf⟩
-      have := hs (by omega)
-      rw [this]; congr 2; omega
-
 /-- **Stamped.**  A document `Migrate` produces carries the requested version. -/
 theorem C13_stamped (o : Oracles) (parsed : Option YVal) (target : Nat) (d : YVal) (hd : DocLike parsed)
-    (h : migrate o parsed target = .up d) : getK d kSchemaVersion = some (.int target) := by
-  have key : ∀ es, migrate o (some (.obj es)) target = .up d → getK d kSchemaVersion = some (.int target) := by
-    intro es h
-    unfold migrate at h
-    cases hm : migrateMem o (some (.obj es)) target with
-    | up d0 =>
-      rw [hm] at h; dsimp only at h
-      obtain ⟨cur, _, _, _, ho, hs, _⟩ := migrateMem_up o es target d0 hm
-      obtain ⟨es0, rfl⟩ := ho.elim
-      cases hr : reparse o (.obj es0) with
-      | none => rw [hr] at h; simp at h
-      | some d1 =>
-        rw [hr] at h; simp at h; subst h
-        obtain ⟨es1, rfl, he⟩ := reparse_obj o es0 d1 hr
-        simp only [getK] at hs ⊢
-        rw [reparseEntries_lookup o _ es0 es1 he, hs]
-        simp [reparse_int]
-    | err k s => rw [hm] at h; simp at h
-    | same => rw [hm] at h; simp at h
-    | panic p s => rw [hm] at h; simp at h
-    | oracle => rw [hm] at h; simp at h
-  cases parsed with
-  | none => simp [migrate, migrateMem] at h
-  | some d0 =>
-    cases d0 <;> simp [DocLike] at hd
-    · exact key [] (by simpa [migrate, migrateMem_null] using h)
-    · exact key _ h
+    (h : migrate o parsed target = .up d) : getK d kSchemaVersion = some (.int target) :=
+  migrate_stamped o parsed target d hd h
 
 /-- **Settings a step does not concern are preserved** (top level): every
 top-level key outside the keys named by the steps that ran has, in the produced
@@ -200,13 +154,6 @@ theorem C13_error_step (o : Oracles) (es : List (Key × YVal)) (target : Nat) (k
       | oracle => simp [upgradeOutcome] at h
     | ok d => rw [hr] at h; simp [upgradeOutcome] at h; split at h <;> simp at h
 
-/-- A produced document is a map carrying the requested stamp. -/
-theorem migrate_up_obj (o : Oracles) (parsed : Option YVal) (t : Nat) (d : YVal) (hd : DocLike parsed)
-    (h : migrate o parsed t = .up d) : ∃ es, d = .obj es ∧ lookup kSchemaVersion es = some (.int t) := by
-  have hs := C13_stamped o parsed t d hd h
-  cases d <;> simp [getK] at hs
-  exact ⟨_, rfl, hs⟩
-
 /-- **No panic in partial runs either**: upgrading to `k` and then, from the
 re-read file, to `target` does not panic at any stage. -/
 theorem C13_total_split (o : Oracles) (parsed : Option YVal) (target k : Nat) (h : DocLike parsed) :
@@ -225,69 +172,6 @@ theorem C13_total_split (o : Oracles) (parsed : Option YVal) (target k : Nat) (h
   | oracle => simp
 
 /-! ### The model meets the spec (core clauses) -/
-
-theorem firstSome_none {α β} (f : α → Option β) (xs : List α) (h : ∀ x ∈ xs, f x = none) :
-    firstSome f xs = none := by
-  induction xs with
-  | nil => rfl
-  | cons x xs ih =>
-    simp only [firstSome, h x (by simp)]
-    exact ih (fun y hy => h y (by simp [hy]))
-
-theorem toRes_panicWhy (r : Outcome) (h : ∀ p s, r ≠ .panic p s) : (r.toRes).panicWhy = none := by
-  cases r <;> simp [Outcome.toRes, Res.panicWhy]
-  exact absurd rfl (h _ _)
-
-theorem toRes_wrapperOK (r : Outcome) : (r.toRes).wrapperOK = true := by
-  cases r <;> simp [Outcome.toRes, Res.wrapperOK]
-
-theorem stampedWith_of_lookup (es : List (Key × YVal)) (n : Nat)
-    (h : lookup kSchemaVersion es = some (.int n)) : stampedWith n (some (.obj es)) = true := by
-  simp [stampedWith, lookupE_eq_lookup, stampKey, h]
-
-theorem migrate_stampOK (o : Oracles) (parsed : Option YVal) (t : Nat) (hd : DocLike parsed) :
-    ((migrate o parsed t).toRes).stampOK t = true := by
-  cases h : migrate o parsed t <;> simp [Outcome.toRes, Res.stampOK]
-  obtain ⟨es, rfl, hs⟩ := migrate_up_obj o parsed t _ hd h
-  exact stampedWith_of_lookup es t hs
-
-theorem migrate_same_version (o : Oracles) (es : List (Key × YVal)) (t : Nat)
-    (h : migrate o (some (.obj es)) t = .same) : versionOf (.obj es) = some t := by
-  unfold migrate at h
-  rcases migrateMem_obj o es t with ⟨⟨k, hk⟩, _⟩ | ⟨_, hv, _⟩ | ⟨cur, _, _, _, hu⟩
-  · rw [hk] at h; simp at h
-  · exact hv
-  · rw [hu] at h
-    cases hr : upgrade o (t - cur) cur (.obj es) with
-    | error fs => obtain ⟨f, s⟩ := fs; rw [hr] at h; cases f <;> simp [upgradeOutcome] at h
-    | ok d => rw [hr] at h; simp [upgradeOutcome] at h; split at h <;> simp at h
-
-theorem splitRun_stampOK (o : Oracles) (parsed : Option YVal) (target k : Nat) (hd : DocLike parsed) :
-    (((splitRun o parsed target k).2).toRes).stampOK target = true := by
-  unfold splitRun
-  cases h1 : migrate o parsed k with
-  | same => exact migrate_stampOK o parsed target hd
-  | up d1 =>
-    obtain ⟨es1, rfl, hs1⟩ := migrate_up_obj o parsed k d1 hd h1
-    dsimp only
-    cases h2 : migrate o (some (.obj es1)) target with
-    | same =>
-      have hv := migrate_same_version o es1 target h2
-      simp [versionOf, lookupE_eq_lookup, stampKey, hs1] at hv
-      subst hv
-      simp [Outcome.toRes, Res.stampOK, stampedWith_of_lookup es1 k hs1]
-    | up d2 =>
-      have := migrate_stampOK o (some (.obj es1)) target trivial
-      rw [h2] at this; simpa using this
-    | err k' s' => simp [Outcome.toRes, Res.stampOK]
-    | panic p' s' => simp [Outcome.toRes, Res.stampOK]
-    | oracle => simp [Outcome.toRes, Res.stampOK]
-  | err k' s' => simp [Outcome.toRes, Res.stampOK]
-  | panic p' s' => simp [Outcome.toRes, Res.stampOK]
-  | oracle => simp [Outcome.toRes, Res.stampOK]
-
-theorem migrate_null (o : Oracles) (t : Nat) : migrate o (some .null) t = migrate o (some (.obj [])) t := by
-  simp [migrate, migrateMem_null]
 
 /-- **The model satisfies the spec's core clauses on every case**: in the model's
 own observation of one run, the single-step run and every partial-run pair, nothing
@@ -369,6 +253,53 @@ theorem C13_model_meets_spec (o : Oracles) (c : Case) (hd : DocLike c.parsed) :
             simp only [modelObs, modelOutcomes, hp, hmig]
             cases hm : migrate o (some (.obj es)) c.target <;> simp [Outcome.toRes]
             exact hne hm
+
+/-! ### One run or several partial runs -/
+
+/-- **Independence from partial runs, under an explicit hypothesis.**  If the
+document in memory after the steps up to `k` is read back unchanged after being
+written (`reparse o dk = some dk`: no step so far left a Go-typed value in the
+map and no scalar changes its type when re-encoded), then upgrading to `k`,
+re-reading the file and upgrading to `target` gives exactly the result of the
+single run — same document, same error, same failing step.  So the result can
+depend on partial runs only through a value that re-encoding changes; the
+unconditional statement is false (`C13_counterexample_path_float`) and, for the
+Go-typed values of steps 12, 20, 28 and 29, is checked on the implementation by
+the spec monitor and the correspondence only. -/
+theorem C13_path_independent_partial (o : Oracles) (es : List (Key × YVal)) (cur k target : Nat) (dk : YVal)
+    (hv : versionOf (.obj es) = some cur) (hck : cur < k) (hkt : k < target) (h29 : target ≤ 29)
+    (hk : upgrade o (k - cur) cur (.obj es) = .ok dk) (hgen : reparse o dk = some dk) :
+    splitRun o (some (.obj es)) target k = (2, migrate o (some (.obj es)) target) := by
+  -- the first partial run produces `dk`, stamped `k`
+  have hup := upgrade_ok o (k - cur) cur (by omega) es
+  rw [hk] at hup
+  obtain ⟨ho, hs, _⟩ := hup
+  obtain ⟨esk, rfl⟩ := ho.elim
+  have hsk : lookup kSchemaVersion esk = some (.int k) := by
+    have := hs (by omega)
+    simp only [getK] at this
+    rw [this]; congr 2; omega
+  have hvk : versionOf (.obj esk) = some k := by
+    simp [versionOf, lookupE_eq_lookup, stampKey, hsk]
+  have h1 : migrate o (some (.obj es)) k = .up (.obj esk) := by
+    simp only [migrate, migrateMem_run o es cur k hv hck (by omega), hk, upgradeOutcome, hgen]
+  -- the second partial run continues where the single run is after step `k`
+  have hone : migrateMem o (some (.obj es)) target = migrateMem o (some (.obj esk)) target := by
+    rw [migrateMem_run o es cur target hv (by omega) h29, migrateMem_run o esk k target hvk hkt h29]
+    have hsum : target - cur = (k - cur) + (target - k) := by omega
+    rw [hsum, upgrade_append, hk]
+    have : cur + (k - cur) = k := by omega
+    rw [this]
+  have h2 : migrate o (some (.obj esk)) target = migrate o (some (.obj es)) target := by
+    simp only [migrate, hone]
+  have hne := C13_error_or_upgraded o esk target k hvk hkt
+  simp only [splitRun, h1, h2] at hne ⊢
+  cases hm : migrate o (some (.obj es)) target with
+  | same => exact absurd hm hne
+  | up d => rfl
+  | err k' s' => rfl
+  | panic p s => rfl
+  | oracle => rfl
 
 /-! ### The partial-run clause fails on an integral float -/
 
@@ -454,6 +385,26 @@ theorem C13_gen_repairs_present :
 example : ∃ d, migrate ⟨fun _ => some [], fun _ => some [], fun _ => none, fun _ _ => none, fun _ => none, [],
       fun _ _ => none⟩ (some (.obj [(kSchemaVersion, .int 11), (kDns, .null)])) 29 = .up d := by
   exact ⟨_, rfl⟩
+
+/-- A type error in a later step: the upgrade fails at step 7 and says so. -/
+example : migrate floatOracles (some (.obj [(kSchemaVersion, .int 6),
+    (kDhcp, .obj [(kLeaseDuration, .str [120])])])) 29 = .err .type 7 := rfl
+
+/-- `C13_frame_top` has content: a version-28 file keeps its `os` section through step 29,
+which concerns only `schema_version` and `filtering`. -/
+example : ∃ d, migrate floatOracles (some (.obj [(kSchemaVersion, .int 28), (kOs, .int 5),
+      (kFilters, .arr []), (kFiltering, .obj [])])) 29 = .up d ∧ getK d kOs = some (.int 5) ∧
+    kOs ∉ topKeys (touchedRange (29 - 28) 28) := by
+  refine ⟨_, rfl, rfl, by decide⟩
+
+/-- A current file: `C13_current_noop` applies. -/
+example : migrate floatOracles (some (.obj [(kSchemaVersion, .int 29)])) 29 = .same := rfl
+
+/-- The hypotheses of `C13_path_independent_partial` hold for a real run (version 1 to 3, then on to 5). -/
+example : versionOf (.obj [(kSchemaVersion, .int 1), (kOs, .int 5)]) = some 1 ∧
+    ∃ dk, upgrade floatOracles (3 - 1) 1 (.obj [(kSchemaVersion, .int 1), (kOs, .int 5)]) = .ok dk ∧
+      reparse floatOracles dk = some dk :=
+  ⟨by decide, _, rfl, rfl⟩
 
 /-- `DocLike` and `versionOf` hypotheses are satisfiable together with a real upgrade. -/
 example : DocLike (some (.obj [(kSchemaVersion, .int 28)])) ∧
